@@ -12,6 +12,7 @@ use super::meta_store::{MetaStore, PartitionMetadata, SubpartitionMetadata};
 use super::partition_segment::PartitionSegment;
 use super::wal_segment::WalSegment;
 use super::{ColumnLoader, PartitionID};
+use crate::errors::QueryError;
 use crate::mem_store::{Column, DataSource};
 use crate::observability::{PerfCounter, QueryPerfCounter, SimpleTracer};
 
@@ -22,7 +23,7 @@ impl ColumnLoader for Storage {
         partition: PartitionID,
         column_name: &str,
         perf_counter: &QueryPerfCounter,
-    ) -> Option<Vec<Column>> {
+    ) -> Result<Option<Vec<Column>>, QueryError> {
         Storage::load_column(self, partition, table_name, column_name, perf_counter)
     }
 
@@ -486,20 +487,29 @@ impl Storage {
         table_name: &str,
         column_name: &str,
         perf_counter: &QueryPerfCounter,
-    ) -> Option<Vec<Column>> {
-        let subpartition_key =
-            self.meta_store
-                .read()
-                .unwrap()
-                .subpartition_key(table_name, partition, column_name)?;
+    ) -> Result<Option<Vec<Column>>, QueryError> {
+        let subpartition_key = match self.meta_store.read().unwrap().subpartition_key(
+            table_name,
+            partition,
+            column_name,
+        ) {
+            Some(key) => key,
+            None => return Ok(None),
+        };
         let path = self
             .tables_path
             .join(sanitize_table_name(table_name))
             .join(partition_filename(partition, &subpartition_key));
-        let data = self.writer.load(&path).unwrap();
+        // A file that is missing, truncated or fails its checksum fails the query that needs it.
+        let data = self
+            .writer
+            .load(&path)
+            .map_err(|err| fatal!("Failed to load partition file {:?}: {}", path, err))?;
         self.perf_counter.disk_read_partition(data.len() as u64);
         perf_counter.disk_read(data.len() as u64);
-        Some(PartitionSegment::deserialize(&data).unwrap().columns)
+        let segment = PartitionSegment::deserialize(&data)
+            .map_err(|err| fatal!("Failed to decode partition file {:?}: {}", path, err))?;
+        Ok(Some(segment.columns))
     }
 
     /// Checks whether a subpartition has been loaded before.
